@@ -354,7 +354,7 @@ func (e *Env) RunBatch(root string, lines []string, spec *SchedSpec, disk *SimDi
 				dispDone := false
 				var dmu sync.Mutex
 				go func() {
-					doConcurrentBatchRun(session, root, startLine, endLine, writeLog, lines)
+					callDispatcher(session, root, startLine, endLine, writeLog, lines)
 					dmu.Lock()
 					dispDone = true
 					dmu.Unlock()
